@@ -99,6 +99,18 @@ func (r *rewriter) probes(s ast.Stmt) []ast.Stmt {
 				// false alarm)
 				_ = n
 			case *ast.CallExpr:
+				// x.mu.Lock(), pkgVar.RLock(): a lock operation evaluates the ADDRESS
+				// of the mutex, it reads nothing that the mutex protects. Probing its
+				// receiver put an unordered read in front of every acquisition.
+				if sel, ok := unparen(n.Fun).(*ast.SelectorExpr); ok {
+					if sl := r.info.Selections[sel]; sl != nil {
+						if fn, isFn := sl.Obj().(*types.Func); isFn {
+							if name, _ := mutexMethod(fn); name != "" {
+								return false
+							}
+						}
+					}
+				}
 				switch fun := unparen(n.Fun).(type) {
 				case *ast.Ident: // append's first argument is a write only when assigned back,
 					// and then the assignment's left-hand side already marks the same selector.
@@ -118,7 +130,16 @@ func (r *rewriter) probes(s ast.Stmt) []ast.Stmt {
 					if s := r.info.Selections[fun]; s != nil && s.Kind() == types.MethodVal {
 						recv := unparen(fun.X)
 						_, ptrRecv := s.Obj().Type().(*types.Signature).Recv().Type().(*types.Pointer)
-						if v := r.pkgVar(recv); v != nil && ptrRecv && !r.libType(v.Type()) {
+						// (mutex methods reached through an embedded sync.Mutex/RWMutex are
+						// lock sites, not accesses: probing them put an unordered "write" in
+						// front of every RLock of a struct{ sync.RWMutex; ... })
+						isMutex := false
+						if fn, isFn := s.Obj().(*types.Func); isFn {
+							if name, _ := mutexMethod(fn); name != "" {
+								isMutex = true
+							}
+						}
+						if v := r.pkgVar(recv); v != nil && ptrRecv && !isMutex && !r.libType(v.Type()) {
 							writes[recv] = true
 						}
 					}
